@@ -50,14 +50,14 @@ func Adopt(m *Machine, md *Model) {
 		} else if len(v.VerAlt) > 0 {
 			ki := &store.KeyInfo{StringKey: k, Key: []byte(k)}
 			p, _, err := m.St.Get(ki, true)
-			if err == nil && p != nil {
-				for _, a := range v.VerAlt {
+			if err == nil && p != nil && p.Ver != v.Ver {
+				// the record on disk keeps its version until the next data write, so both stay possible
+				for i, a := range v.VerAlt {
 					if p.Ver == a {
+						v.VerAlt[i] = v.Ver
 						v.Ver = a
+						break
 					}
-				}
-				if p.Ver == v.Ver {
-					v.VerAlt = nil
 				}
 			}
 		}
